@@ -5,7 +5,7 @@ import functools
 import numbers
 import operator
 import warnings
-from collections import defaultdict
+from collections import defaultdict, namedtuple
 from collections.abc import Callable, Mapping
 
 import dask
@@ -602,6 +602,9 @@ class Blockwise(Expr):
         return type(self)(*operands)
 
 
+_OperandRef = namedtuple("_OperandRef", ["position"])
+
+
 class MapPartitions(Blockwise):
     _parameters = [
         "frame",
@@ -647,14 +650,31 @@ class MapPartitions(Blockwise):
     def args(self):
         return [self.frame] + self.operands[len(self._parameters) :]
 
+    def _split_args(self):
+        """Positional and keyword arguments of ``func``
+
+        A collection that is passed as a keyword argument has to be an operand
+        (a graph dependency) like a positional one: it is one of ``self.args``
+        and ``kwargs`` holds an ``_OperandRef`` with its position.
+        """
+        kwargs = dict(self.kwargs or {})
+        refs = {k: v.position for k, v in kwargs.items() if isinstance(v, _OperandRef)}
+        kwargs.update({k: self.args[i] for k, i in refs.items()})
+        args = [a for i, a in enumerate(self.args) if i not in refs.values()]
+        return args, kwargs
+
     @functools.cached_property
     def _meta(self):
         meta = self.operand("meta")
+        args, kwargs = self._split_args()
         return _get_meta_map_partitions(
-            self.args,
+            args,
             [e for e in self.args if isinstance(e, Expr)],
             self.func,
-            self.kwargs,
+            {
+                k: meta_nonempty(v._meta) if isinstance(v, Expr) else v
+                for k, v in kwargs.items()
+            },
             meta,
             self.parent_meta,
         )
@@ -688,8 +708,8 @@ class MapPartitions(Blockwise):
         return super()._select_partitions(partitions)
 
     def _task(self, index: int):
-        args = [self._blockwise_arg(op, index) for op in self.args]
-        kwargs = (self.kwargs if self.kwargs is not None else {}).copy()
+        args, kwargs = self._split_args()
+        args = [self._blockwise_arg(op, index) for op in args]
         if self._has_partition_info:
             kwargs["partition_info"] = {
                 "number": index,
@@ -703,13 +723,14 @@ class MapPartitions(Blockwise):
                     "_meta": self._meta,
                 }
             )
+            kwargs = self._blockwise_kwargs(index, kwargs)
             return (apply, apply_and_enforce, args, kwargs)
         else:
             return (
                 apply,
                 self.func,
                 args,
-                kwargs,
+                self._blockwise_kwargs(index, kwargs),
             )
 
 
